@@ -202,3 +202,14 @@ NOT_APPLICABLE = {
     "C18": "get_close_matches: soundness of two numeric upper bounds and a float ranking; quantifies over values",
     "C19": "work bound: a complexity bound over runtime quantities; no sound static cost analysis in reach for the D loop",
 }
+
+
+# Reviewed exceptions: one finding key each, with the reason the property is not affected.  An excepted finding is
+# reported in the evidence (`exceptions`) and counted as discharged; it is never a KNOWN-FINDING (that list is for
+# genuine defects only).
+EXCEPTIONS = {
+    "A4:algorithms::compact::shift_diff_ops_up:one-sided-len:DiffOp.len:old_range.len()-suffix_len":
+        "unreachable: in the (Delete, Equal) arm the suffix is measured against the Delete's new range, which is always "
+        "empty, so suffix_len is 0 and the branch that builds this Equal is never taken; the expression is wrong-looking "
+        "dead code, no captured op can carry it",
+}
